@@ -51,6 +51,41 @@ class CallGraph:
                     for op in s.get("ops", []):
                         if op.get("k") == "const" and op.get("fn"):
                             self._add(path, op["fn"], op["fn"])
+        self._std_dispatch()
+
+    def _std_dispatch(self):
+        """calls that reach a workspace trait impl through a generic std function: `s.parse::<T>()` runs
+        `<T as FromStr>::from_str`, `x.to_string()` runs `<X as Display>::fmt` (read off the typed HIR, where the
+        instantiation is visible)"""
+        prog = self.prog
+        by_self = {}
+        for imp in prog.impls:
+            if imp.get("trait") in ("core::str::traits::FromStr", "core::fmt::Display"):
+                for it in imp["items"]:
+                    if it["name"] in ("from_str", "fmt"):
+                        by_self[(imp["trait"], imp["self"])] = it["path"]
+
+        def peel(ty):
+            ty = ty or ""
+            while ty.startswith("&"):
+                ty = ty[5:] if ty.startswith("&mut ") else ty[1:]
+            return ty
+        for path, fn in prog.fns.items():
+            if fn.body is None:
+                continue
+            for n in core.walk_fn(fn, into_closures=False):
+                if n.get("k") != "MethodCall":
+                    continue
+                cal = core.callee_generic(n) or ""
+                if cal.endswith("core::str::<impl str>::parse"):
+                    m = re.match(r"^core::result::Result<(.+), [^,]+>$", n.get("ty") or "")
+                    tgt = by_self.get(("core::str::traits::FromStr", m.group(1))) if m else None
+                    if tgt and tgt in prog.fns:
+                        self.edges[path].add(tgt)
+                elif cal.endswith("alloc::string::ToString::to_string"):
+                    tgt = by_self.get(("core::fmt::Display", peel(core.strip(n["recv"]).get("ty"))))
+                    if tgt and tgt in prog.fns:
+                        self.edges[path].add(tgt)
 
     def _add(self, src, tgt, generic):
         prog = self.prog
